@@ -6,10 +6,10 @@ rebased step, applied by the real code, must have the same effect as the real re
 Search: the full convergence check on pairs of steps produced by high-level operations on a common
 base document whose touched ranges are separated by at least one untouched token.
 
-Guard of `commute_succeeds_replace` (lean/Props/C17.lean): `insideLeft` (lean/PM/CommuteGuard.lean) — the left
-replace step happens inside an element node the right one does not touch.  Tie: the guard computed from the real
-`ResolvedPos` data (`inside_left` below) is compared with the model's value (driver op `commuteGuard`) on every
-separated pair of replace steps that both apply.  Relational oracle: guard true  =>  both rebased steps apply in the
+Guard of `commute_succeeds_replace` (lean/Props/C17.lean): `commuteGuard = insideLeft or insideRight`
+(lean/PM/CommuteGuard.lean) — one of the two replace steps happens inside an element node the other one does not
+touch.  Tie: both halves computed from the real `ResolvedPos` data (`inside_left`, `inside_right` below) are compared
+with the model's values (driver op `commuteGuard`) on every separated pair of replace steps that both apply.  Relational oracle: guard true  =>  both rebased steps apply in the
 real code and give equal documents (a failure there is *not* excused by the open finding C17-parent-retyped).
 """
 from prosemirror.transform import (
@@ -69,6 +69,27 @@ def inside_left(doc, l, r):
         d += 1
 
 
+def inside_right(doc, l, r):
+    """`insideRight` of lean/PM/CommuteGuard.lean on the real data: replace_outer of the right step `r` descends into an
+    element node that the range of the left step `l` ends in front of, in a node replace_outer of `l` reaches as well"""
+    rf2, rt2 = doc.resolve(r.from_), doc.resolve(r.to)
+    rf1 = doc.resolve(l.from_)
+    e1 = rf1.depth - l.slice.open_start
+    e2 = rf2.depth - r.slice.open_start
+    d = 0
+    while True:
+        if rf2.depth <= d:
+            return False
+        if not (e2 - d > 0 and rt2.depth > d and rt2.index(d) == rf2.index(d)):
+            return False
+        start_m = rf2.before(d + 1)
+        if l.to <= start_m:
+            return True
+        if not (e1 - d > 0 and l.from_ > start_m):
+            return False
+        d += 1
+
+
 def first_step(rng, info, d, docs):
     tr = Transform(d)
     name, args, thunk = ops.plan_op(rng, info, d, docs)
@@ -96,11 +117,11 @@ def run(ctx):
         for (replay, impl_guard, converged), out in zip(gmetas, gouts):
             ctx.count("guard:model_requests")
             mo = out.get("ok")
-            if not isinstance(mo, list) or mo[0] is not impl_guard:
+            if not isinstance(mo, list) or mo[:2] != list(impl_guard) or mo[2] is not (impl_guard[0] or impl_guard[1]):
                 ctx.mismatch("commuteGuard", replay, impl_guard, out)
                 continue
-            ctx.count("guard:insideLeft:" + ("true" if mo[0] else "false"))
-            if mo[0] and not converged:
+            ctx.count("guard:left=%s,right=%s" % (mo[0], mo[1]))
+            if mo[2] and not converged:
                 # the theorem's conclusion fails on the real code although its guard holds
                 ctx.mismatch("commuteGuard=>converge", replay, "a rebased step fails or the orders differ", out)
         del greqs[:], gmetas[:]
@@ -175,7 +196,7 @@ def run(ctx):
                     replay["a_rebased"], replay["b_rebased"] = a2.to_json(), b2.to_json()
                     if type(a) is ReplaceStep and type(b) is ReplaceStep:
                         l, r = (a, b) if a.to < b.from_ else (b, a)
-                        stg, g = outcome(lambda: inside_left(d, l, r))
+                        stg, g = outcome(lambda: (inside_left(d, l, r), inside_right(d, l, r)))
                         if stg == "ok":
                             greqs.append({"op": "commuteGuard", "doc": info.node(d), "a": info.step(l), "b": info.step(r)})
                             gmetas.append((replay, g, dab is not None and dba is not None and dab.eq(dba)))
